@@ -31,14 +31,23 @@ const sSet = "(Array Int Bool)"
 
 func ghostSort(g *GhostField) string {
 	switch g.Sort {
-	case "int", "ref":
+	case "int", "ref", "strsetmap":
 		return sInt
 	case "bool":
 		return sBool
 	case "set":
 		return sSet
+	case "ifaceset":
+		return "(Array " + sIface + " Bool)"
 	}
 	return sInt
+}
+
+func setSortOf(v EV) string {
+	if strings.HasPrefix(v.Sort, "(Array ") {
+		return v.Sort
+	}
+	return sSet
 }
 
 func ghostVar(g *GhostField) string { return "G:" + g.Type + "." + g.Name }
@@ -484,6 +493,13 @@ func (env *Env) sel(x *CSel) EV {
 			if c := env.qualifiedConst(id.Name, x.Name); c != nil {
 				return env.constEV(c)
 			}
+			if gv := env.qualifiedVar(id.Name, x.Name); gv != nil {
+				// package-level variable of an imported package: same address
+				// constant as the code uses for the global
+				t := env.fe.sc.declareNamed("global."+gv.Pkg().Name()+"."+gv.Name(), sInt)
+				env.fe.knownNonNil[t] = true
+				return EV{T: t, Typ: gv.Type(), Addr: true}
+			}
 		}
 	}
 	v := env.eval(x.X)
@@ -575,6 +591,9 @@ func ghostGoType(g *GhostField) types.Type {
 		return types.Typ[types.Int]
 	case "bool":
 		return types.Typ[types.Bool]
+	case "strsetmap":
+		// a reference to a Go map[string]struct{} (usable with has())
+		return types.NewMap(types.Typ[types.String], types.NewStruct(nil, nil))
 	}
 	return nil
 }
@@ -608,6 +627,24 @@ func (env *Env) pkgFor(t types.Type) *types.Package {
 		return n.Obj().Pkg()
 	}
 	return env.pkg
+}
+
+func (env *Env) qualifiedVar(pkgName, name string) *types.Var {
+	var pkgs []*types.Package
+	if env.pkg != nil {
+		pkgs = append(pkgs, env.pkg.Imports()...)
+	}
+	if env.fe.fn.Pkg != nil {
+		pkgs = append(pkgs, env.fe.fn.Pkg.Pkg.Imports()...)
+	}
+	for _, imp := range pkgs {
+		if imp.Name() == pkgName {
+			if v, ok := imp.Scope().Lookup(name).(*types.Var); ok {
+				return v
+			}
+		}
+	}
+	return nil
 }
 
 func (env *Env) qualifiedConst(pkgName, name string) *types.Const {
@@ -974,10 +1011,10 @@ func (env *Env) callExpr(x *CCall) EV {
 		return EV{T: fmt.Sprintf("(select %s %s)", arg(1).T, arg(0).T), Typ: boolT}
 	case "add":
 		need(2)
-		return EV{T: fmt.Sprintf("(store %s %s true)", arg(0).T, arg(1).T), Sort: sSet}
+		return EV{T: fmt.Sprintf("(store %s %s true)", arg(0).T, arg(1).T), Sort: setSortOf(arg(0))}
 	case "del":
 		need(2)
-		return EV{T: fmt.Sprintf("(store %s %s false)", arg(0).T, arg(1).T), Sort: sSet}
+		return EV{T: fmt.Sprintf("(store %s %s false)", arg(0).T, arg(1).T), Sort: setSortOf(arg(0))}
 	case "emptyset":
 		need(0)
 		return EV{T: "((as const (Array Int Bool)) false)", Sort: sSet}
@@ -1121,10 +1158,20 @@ func (env *Env) locsOf(l CExpr) []assignLoc {
 			}
 		}
 	}
-	if c, ok := l.(*CCall); ok && c.Fn == "allof" {
-		// allof(Type.field): the whole heap variable
+	if c, ok := l.(*CCall); ok && (c.Fn == "allof" || c.Fn == "allmaps") {
+		// allof(Type.field): the whole heap variable; allmaps(Type.field): the contents of
+		// every map of the field's map type. The type may be package-qualified; a type of a
+		// package that is not part of the loaded program has no memory to write.
 		if len(c.Args) == 1 {
 			if s, ok := c.Args[0].(*CSel); ok {
+				if sx, ok := s.X.(*CSel); ok {
+					if pid, ok := sx.X.(*CIdent); ok {
+						if env.fe.eng.pkgByName(pid.Name) == nil {
+							return nil
+						}
+						s = &CSel{X: &CIdent{Name: pid.Name + "." + sx.Name}, Name: s.Name}
+					}
+				}
 				if id, ok := s.X.(*CIdent); ok {
 					if g, ok := fe.eng.cs.Ghosts[id.Name+"."+s.Name]; ok {
 						fe.heapSorts[ghostVar(g)] = arrSort(ghostSort(g))
@@ -1133,6 +1180,16 @@ func (env *Env) locsOf(l CExpr) []assignLoc {
 					t, _ := env.resolveType(id.Name)
 					stT := t.Underlying().(*types.Struct)
 					for i := 0; i < stT.NumFields(); i++ {
+						if stT.Field(i).Name() == s.Name && c.Fn == "allmaps" {
+							mt, isMap := stT.Field(i).Type().Underlying().(*types.Map)
+							if !isMap {
+								env.errf("allmaps(): %s is not a map field", l)
+							}
+							has, val, ks, vs := fe.mapVars(mt)
+							fe.heapSorts[has] = "(Array Int (Array " + ks + " Bool))"
+							fe.heapSorts[val] = "(Array Int (Array " + ks + " " + vs + "))"
+							return []assignLoc{{hv: has, all: true, addr: "0"}, {hv: val, all: true, addr: "0"}}
+						}
 						if stT.Field(i).Name() == s.Name {
 							hv := fe.eng.fieldVar(t, i)
 							fe.heapSorts[hv] = arrSort(fe.sorts().sortOf(stT.Field(i).Type()))
